@@ -31,51 +31,8 @@ def run(ctx):
                        "end-of-stream behaviour is outside the property (reported as NOTICE only)"]
     blk, lin = R.block_reader, R.line_reader
 
-    # ---- M1 ------------------------------------------------------------------
-    ctx.rule("M1", "who-may-call recv on the client socket = the line reader and the block reader")
-    ctl = ast.parse("def peek(self):\n    return self.sock.recv(1)\n").body[0]
-    if not attr_calls(ctl, "recv"):
-        raise AnalysisError("M1", "positive control failed: recv finder does not match a synthetic caller")
-    for name, cs in R.recv_sites.items():
-        for c in cs:
-            if name in (blk.name, lin.name):
-                ctx.holds("M1", "%s: %s" % (R.methods[name].qualname, norm(c)))
-            else:
-                ctx.violation("M1", R.methods[name], "foreign-recv", "socket read outside the two reader functions: bytes are "
-                              "consumed behind the buffer's back", node=c,
-                              witness="a reply split so that this read sees part of it desynchronises every later reply")
-    for f, c in R.foreign_recv:
-        ctx.violation("M1", f, "foreign-recv", "socket read outside the Client readers", node=c)
-    ctx.need("M1", "recv call sites", sum(len(v) for v in R.recv_sites.values()), 2)
-
-    # ---- M2 ------------------------------------------------------------------
-    ctx.rule("M2", "who-may-read/write the read buffer = the two readers and __init__ (empty-constant resets allowed where the socket is replaced)")
-    writes = attr_writes(ctx.program, R.buffer_attr, modules=["managesieve"])
-    reads = attr_reads(ctx.program, R.buffer_attr, modules=["managesieve"])
-    owners = {blk.name, lin.name, "__init__"}
-    sock_replacers = {n for n, f in R.methods.items() if any(
-        isinstance(x, ast.Attribute) and isinstance(x.ctx, ast.Store) and x.attr == R.sock_attr for x in ast.walk(f.node))
-        or attr_calls(f.node, "close")}
-    n = 0
-    for f, node, kind, text in writes:
-        n += 1
-        if f.cls is R.cls and f.name in owners:
-            ctx.holds("M2", "%s writes %s" % (f.qualname, text))
-            continue
-        st = stmt_of(node)
-        v = const_value(ctx.program, f, st.value) if isinstance(st, ast.Assign) else TOP
-        if f.cls is R.cls and f.name in sock_replacers and kind == "assign" and v is not TOP and v in (b"", "", None):
-            ctx.holds("M2", "%s resets the buffer where the socket is replaced/closed" % f.qualname)
-            continue
-        ctx.violation("M2", f, "foreign-buffer-write", "the read buffer is modified outside the reader functions: %s" % norm(st),
-                      node=node)
-    for f, node in reads:
-        n += 1
-        if f.cls is R.cls and f.name in owners:
-            continue
-        ctx.violation("M2", f, "foreign-buffer-read", "the read buffer is read outside the reader functions", node=node)
-    ctx.need("M2", "buffer accesses", n, 5)
-    ctx.holds("M2", "%d buffer accesses, all in %s" % (n, sorted(owners)))
+    m1(ctx, R)
+    m2(ctx, R)
 
     # ---- M3 exact-size reader -----------------------------------------------------
     ctx.rule("M3", "block reader: recv inside a loop that ends only when the requested size is accumulated; requests the remaining "
@@ -259,6 +216,59 @@ def run(ctx):
             ctx.violation("M5", f, "size-altered:%s" % norm(a), "the block reader is called with %s, which is not the announced literal "
                           "size (%s)" % (norm(a), verdict), node=c,
                           witness="a literal of n octets is consumed as a different number of octets; the following reply is misparsed")
+
+
+def m1(ctx, R):
+    blk, lin = R.block_reader, R.line_reader
+    # ---- M1 ------------------------------------------------------------------
+    ctx.rule("M1", "who-may-call recv on the client socket = the line reader and the block reader")
+    ctl = ast.parse("def peek(self):\n    return self.sock.recv(1)\n").body[0]
+    if not attr_calls(ctl, "recv"):
+        raise AnalysisError("M1", "positive control failed: recv finder does not match a synthetic caller")
+    for name, cs in R.recv_sites.items():
+        for c in cs:
+            if name in (blk.name, lin.name):
+                ctx.holds("M1", "%s: %s" % (R.methods[name].qualname, norm(c)))
+            else:
+                ctx.violation("M1", R.methods[name], "foreign-recv", "socket read outside the two reader functions: bytes are "
+                              "consumed behind the buffer's back", node=c,
+                              witness="a reply split so that this read sees part of it desynchronises every later reply")
+    for f, c in R.foreign_recv:
+        ctx.violation("M1", f, "foreign-recv", "socket read outside the Client readers", node=c)
+    ctx.need("M1", "recv call sites", sum(len(v) for v in R.recv_sites.values()), 2)
+
+
+
+def m2(ctx, R):
+    blk, lin = R.block_reader, R.line_reader
+    # ---- M2 ------------------------------------------------------------------
+    ctx.rule("M2", "who-may-read/write the read buffer = the two readers and __init__ (empty-constant resets allowed where the socket is replaced)")
+    writes = attr_writes(ctx.program, R.buffer_attr, modules=["managesieve"])
+    reads = attr_reads(ctx.program, R.buffer_attr, modules=["managesieve"])
+    owners = {blk.name, lin.name, "__init__"}
+    sock_replacers = {n for n, f in R.methods.items() if any(
+        isinstance(x, ast.Attribute) and isinstance(x.ctx, ast.Store) and x.attr == R.sock_attr for x in ast.walk(f.node))
+        or attr_calls(f.node, "close")}
+    n = 0
+    for f, node, kind, text in writes:
+        n += 1
+        if f.cls is R.cls and f.name in owners:
+            ctx.holds("M2", "%s writes %s" % (f.qualname, text))
+            continue
+        st = stmt_of(node)
+        v = const_value(ctx.program, f, st.value) if isinstance(st, ast.Assign) else TOP
+        if f.cls is R.cls and f.name in sock_replacers and kind == "assign" and v is not TOP and v in (b"", "", None):
+            ctx.holds("M2", "%s resets the buffer where the socket is replaced/closed" % f.qualname)
+            continue
+        ctx.violation("M2", f, "foreign-buffer-write", "the read buffer is modified outside the reader functions: %s" % norm(st),
+                      node=node)
+    for f, node in reads:
+        n += 1
+        if f.cls is R.cls and f.name in owners:
+            continue
+        ctx.violation("M2", f, "foreign-buffer-read", "the read buffer is read outside the reader functions", node=node)
+    ctx.need("M2", "buffer accesses", n, 5)
+    ctx.holds("M2", "%d buffer accesses, all in %s" % (n, sorted(owners)))
 
 
 def group_byteset(p, gid):
